@@ -16,6 +16,7 @@ import GeoProofs.Lemmas.C01QDisjoint
 import GeoProofs.Lemmas.C01QTypes
 import GeoProofs.Lemmas.C01QAreal
 import GeoProofs.Lemmas.C01QPoint
+import GeoProofs.Lemmas.C01QTriangle
 import Mathlib.Tactic.NormNum
 
 namespace Geo.Proofs.C01
@@ -739,6 +740,23 @@ theorem dimsSpec_rect_witness :
     (relateSpec (.rect ⟨0, 0⟩ ⟨0, 0⟩) (.point ⟨5, 5⟩)).ie = .empty ∧
     (relateSpec (.rect ⟨0, 0⟩ ⟨0, 0⟩) (.point ⟨5, 5⟩)).be = .zero :=
   ⟨by decide +kernel, by decide +kernel, by decide +kernel, by decide +kernel⟩
+
+/-- [T] Triangle with non-collinear vertices (interior face sample computed: the sample beside the first
+edge on the side of the third vertex has winding number ±1, whatever the orientation and position). -/
+theorem dimsSpec_triangle (a b c : Pt) (hD : cross a b c ≠ 0) : Spec.DimsSpec (.triangle a b c) :=
+  Spec.dimsSpec_triangle a b c hD
+
+theorem triangle_interior_sample (a b c : Pt) (hD : cross a b c ≠ 0) :
+    Spec.HasInteriorSample (parts (.triangle a b c)) := Spec.triangle_interior_sample a b c hD
+
+example : Spec.DimsSpec (.triangle ⟨0, 0⟩ ⟨4, 1⟩ ⟨1, 3⟩) := dimsSpec_triangle _ _ _ (by norm_num [cross])
+
+/-- the excluded class: a collinear Triangle is `OneDimensional` for `HasDimensions`; in the specification
+its (degenerate) ring is all boundary -/
+theorem dimsSpec_triangle_witness : dims (.triangle ⟨0, 0⟩ ⟨1, 0⟩ ⟨2, 0⟩) = .one := by decide +kernel
+
+theorem dimsSpec_triangle_witness_ie :
+    (relateSpec (.triangle ⟨0, 0⟩ ⟨1, 0⟩ ⟨2, 0⟩) (.point ⟨5, 5⟩)).ie = .empty := by decide +kernel
 
 /-- [T] Polygon of dimension two, given an interior face sample.
 Full statement: `DimsSpec (.polygon q)` for every valid polygon — needs S2 (a valid polygon has a face
